@@ -143,8 +143,8 @@ pub open spec fn starts_with(s: Seq<char>, p: Seq<char>) -> bool { p.len() <= s.
 pub assume_specification<'a, P: core::str::pattern::Pattern>[ str::strip_suffix::<P> ](s: &'a str, suffix: P) -> (r: Option<&'a str>)
     where for<'b> <P as core::str::pattern::Pattern>::Searcher<'b>: core::str::pattern::ReverseSearcher<'b>,
     ensures pat_str_of(suffix) is Some ==> (match r {
-        Some(t) => ends_with(s@, pat_str_of(suffix)->0) && t@ == s@.take(s@.len() - pat_str_of(suffix)->0.len()),
-        None => !ends_with(s@, pat_str_of(suffix)->0),
+        Option::Some(t) => ends_with(s@, pat_str_of(suffix)->0) && t@ == s@.take(s@.len() - pat_str_of(suffix)->0.len()),
+        Option::None => !ends_with(s@, pat_str_of(suffix)->0),
     });
 
 } // verus!
